@@ -644,6 +644,71 @@ func peerPoolAdapter(g Geometry) Adapter {
 		}}
 }
 
+// pool.PeerPool with one peer that is down: subscribers that hash to the dead peer are served from the local
+// pool by fail-over (as the health loop arranges after its failure threshold); the others are local anyway.
+const deadPeer = "127.0.0.1:1"
+
+// failoverSubID names subscriber i so that the first two hash to the dead peer and the rest to this node.
+func failoverSubID(i int) string {
+	probe, err := pool.NewPeerPool(pool.PeerPoolConfig{NodeID: "n1", Peers: []string{deadPeer}, Network: "10.250.0.0/24", Gateway: "10.250.0.1", LeaseTime: time.Hour, Logger: zap.NewNop()})
+	if err != nil {
+		panic(err)
+	}
+	want := "n1"
+	if i <= 2 {
+		want = deadPeer
+	}
+	for k := 0; ; k++ {
+		id := fmt.Sprintf("sub-%d-%d", i, k)
+		if probe.GetOwner(id) == want {
+			return id
+		}
+	}
+}
+
+func peerPoolFailoverAdapter(g Geometry) Adapter {
+	ad := peerPoolAdapter(g)
+	ad.Impl = "pool.PeerPool-failover"
+	ids := map[int]string{}
+	var idMu sync.Mutex
+	ad.subID = func(i int) string {
+		idMu.Lock()
+		defer idMu.Unlock()
+		if _, ok := ids[i]; !ok {
+			ids[i] = failoverSubID(i)
+		}
+		return ids[i]
+	}
+	ad.mk = func() *impl {
+		p, err := pool.NewPeerPool(pool.PeerPoolConfig{NodeID: "n1", Peers: []string{deadPeer}, Network: g.CIDR, Gateway: g.UnitIP(1).String(), LeaseTime: time.Hour, Logger: zap.NewNop()})
+		if err != nil {
+			panic(err)
+		}
+		p.VerifSetPeerHealth(deadPeer, false)
+		lp := core.Field(p, "localPool")
+		im := &impl{objs: []any{lp.Interface()}}
+		// what this node's pool holds for the subscriber (PeerPool.Get would ask the dead owner)
+		im.lookup = func(id string) int {
+			v := core.Field(lp.Interface(), "allocations").MapIndex(reflect.ValueOf(id))
+			if !v.IsValid() {
+				return -1
+			}
+			return g.UnitOfIP(net.IP(v.Bytes()))
+		}
+		im.alloc = func(id string) (int, error) {
+			r, err := p.Allocate(bg, id, nil)
+			if err != nil {
+				return -1, err
+			}
+			return g.UnitOfIP(net.ParseIP(r.IP)), nil
+		}
+		im.release = func(id string) error { return p.Release(bg, id) }
+		im.stats = func() (int, int) { s := p.Stats(); return s.Allocated, s.Total }
+		return im
+	}
+	return ad
+}
+
 // ---------------------------------------------------------------------------------------
 // nexus.Client hash-based central allocation over a synchronous store
 
